@@ -112,6 +112,12 @@ inductive Cond where
   | resultOk                                  -- result >= 0
   | tempNull                                  -- temp == NULL   (the Python call raised)
   | incrGe (bound : Nat)                      -- ++i >= bound
+  | instanceGe (k : Int)                      -- instance >= k
+  | traitNull (t : Nat)                       -- t == NULL
+  | dictNotNull (owner : Nat)                 -- dict(owner) != NULL
+  | traitLookupFails2 (o s s2 dst : Nat)      -- as traitLookupFails, the prefix-trait lookup is given name s2
+  | or (a b : Cond)                           -- a || b
+  | nameNull (s : Nat)                        -- s == NULL   (name register: the name computation failed)
   deriving DecidableEq, Repr
 
 inductive Stmt where
@@ -130,6 +136,11 @@ inductive Stmt where
   | raise (e : CErr)                          -- an exception is set, execution continues
   | retErr (e : CErr)                         -- return through an error helper / `return NULL` / `return -1`
   | retResult                                 -- return result  (also `goto done` in front of `done: … return result`)
+  | getTrait (dst o s : Nat)                  -- dst = get_trait(o, s, instance)
+  | objSetNull (o : Nat)                      -- o = NULL
+  | dictGet (dst owner t : Nat)               -- dst = PyDict_GetItem(dict(owner), t->delegate_name)
+  | retTrait (t : Nat)                        -- return (PyObject *)t
+  | brk                                       -- break
   deriving DecidableEq, Repr
 
 /-- A function whose body is `pre; for (i = 0;;) { body }` (`loop = none`: no loop, `pre` returns). -/
@@ -138,7 +149,16 @@ structure CFun where
   nS : Nat                 -- number of name registers
   pre : Stmt
   loop : Option Stmt
+  post : Stmt := .skip     -- statements after the loop (reached by `break`)
   deriving Repr
+
+/-- `trait->delegate_attr_name(trait, obj, name)` as the interpreters see it: it may fail (return NULL with
+an exception set).  In the code this happens only when `PyUnicode_Concat` fails in
+`delegate_attr_name_class_name`, i.e. when `type(obj).__prefix__` is not a `str`. -/
+abbrev NameFn := DelegInfo → Option Name → Name → Except Exc Name
+
+/-- The name computation of the model: total (every `__prefix__` is a `str`). -/
+def totalName : NameFn := fun d q n => .ok (attrName d q n)
 
 /-- Value of an object-typed C variable. -/
 inductive OVal where
@@ -151,6 +171,7 @@ inductive Outcome (σ ρ : Type) where
   | next (s : σ)
   | ret (r : ρ)
   | stuck                 -- the statement has no meaning in this interpreter / C undefined behaviour
+  | brk (s : σ)           -- `break` out of the enclosing loop
 
 /-! ### getattr_delegate -/
 
@@ -160,6 +181,7 @@ structure GetSt where
   pending : Option Exc := none
   result : Option Val := none
   entered : Bool := false       -- between Py_EnterRecursiveCall and Py_LeaveRecursiveCall
+  nullS : Option Nat := none    -- the name register that holds NULL (using it is undefined behaviour)
 
 /-- Constants of one call of `getattr_delegate`: the pool, the deferring trait, and `tp_getattro` of the
 delegate's type (`none`: the interpreter's recursion limit is reached). -/
@@ -167,10 +189,11 @@ structure GetCtx where
   p : Pool
   d : DelegInfo
   recur : Option (ObjId → Name → Except Exc Val)
+  nameFn : NameFn
 
 def GetCtx.cond (c : GetCtx) (st : GetSt) : Cond → Option (Bool × GetSt)
-  | .undefinedDelegate 0 => some (false, st)      -- a CTrait made by `Delegate.as_ctrait` has both fields
-  | .dictProbe owner 0 dst =>
+  | .undefinedDelegate _ => some (false, st)      -- a CTrait made by `Delegate.as_ctrait` has both fields
+  | .dictProbe owner _ dst =>
     match st.O.getD owner .null with
     | .obj o =>
       match (c.p.obj o).deleg with
@@ -187,6 +210,7 @@ def GetCtx.cond (c : GetCtx) (st : GetSt) : Cond → Option (Bool × GetSt)
     match c.recur with
     | none => some (true, { st with pending := some .runtimeError })
     | some _ => some (false, { st with entered := true })
+  | .nameNull s => some (decide (st.nullS = some s), st)
   | _ => none
 
 def GetCtx.exec (c : GetCtx) : Stmt → GetSt → Outcome GetSt (Except Exc Val)
@@ -200,16 +224,21 @@ def GetCtx.exec (c : GetCtx) : Stmt → GetSt → Outcome GetSt (Except Exc Val)
     | none => .stuck
     | some (true, st') => c.exec t st'
     | some (false, st') => c.exec e st'
-  | .getattro dst src 0, st =>
+  | .getattro dst src _, st =>
     match st.O.getD src .null with
     | .obj o =>
       .next { st with O := setReg st.O dst (match (c.p.obj o).deleg with | some x => .obj x | none => .pyNone) .null }
     | _ => .stuck
-  | .attrName dst 0 o s, st =>
+  | .attrName dst _ o s, st =>
     match st.O.getD o .null with
-    | .obj ob => .next { st with S := setReg st.S dst (attrName c.d (c.p.obj ob).cls.pfx (st.S.getD s [])) [] }
+    | .obj ob =>
+      if st.nullS = some s then .stuck else
+      match c.nameFn c.d (c.p.obj ob).cls.pfx (st.S.getD s []) with
+      | .ok r => .next { st with S := setReg st.S dst r [], nullS := none }
+      | .error e => .next { st with nullS := some dst, pending := some e }
     | _ => .stuck
   | .callGetattro o s, st =>
+    if st.nullS = some s then .stuck else
     if st.entered then
       match st.O.getD o .null, c.recur with
       | .obj x, some rd =>
@@ -233,11 +262,11 @@ def GetCtx.exec (c : GetCtx) : Stmt → GetSt → Outcome GetSt (Except Exc Val)
 
 /-- `getattr_delegate(trait, obj, name)`: registers — objects `[obj]`, names `[name]`, traits `[trait]`. -/
 def execGet (f : CFun) (p : Pool) (recur : Option (ObjId → Name → Except Exc Val)) (o : ObjId) (n : Name)
-    (d : DelegInfo) : Except Exc Val :=
+    (d : DelegInfo) (nameFn : NameFn := totalName) : Except Exc Val :=
   match f.loop with
   | some _ => .error .other
   | none =>
-    match (GetCtx.mk p d recur).exec f.pre
+    match (GetCtx.mk p d recur nameFn).exec f.pre
         { O := .obj o :: List.replicate (f.nO - 1) .null, S := n :: List.replicate (f.nS - 1) [] } with
     | .ret r => r
     | _ => .error .other
@@ -291,6 +320,8 @@ structure SetSt where
   T : List TraitDef
   i : Nat := 0
   result : Option StepOut := none
+  pending : Option Exc := none
+  nullS : Option Nat := none    -- the name register that holds NULL (using it is undefined behaviour)
 
 structure SetCtx where
   E : Env
@@ -298,6 +329,7 @@ structure SetCtx where
   p : Pool
   d : DelegInfo             -- `traito` as the model sees it
   value : Option Val
+  nameFn : NameFn
 
 def isOk (s : StepOut) : Bool := match s.res with | .ok _ => true | .error _ => false
 
@@ -320,9 +352,11 @@ def SetCtx.cond (c : SetCtx) (st : SetSt) : Cond → Option (Bool × SetSt)
     | .pyNone => some (true, st)
     | .null => none
   | .traitLookupFails o s dst =>
+    if st.nullS = some s then none else
     match st.O.getD o .null with
     | .obj x => some (false, { st with T := setReg st.T dst ((c.p.obj x).cls.trait (st.S.getD s [])) .python })
     | _ => none
+  | .nameNull s => some (decide (st.nullS = some s), st)
   | .notCTrait _ => some (false, st)
   | .noAttrNameFn t =>
     match st.T.getD t .python with
@@ -348,7 +382,8 @@ def SetCtx.exec (c : SetCtx) : Stmt → SetSt → Outcome SetSt StepOut
     | none => .stuck
     | some (true, st') => c.exec t st'
     | some (false, st') => c.exec e st'
-  | .copyName dst src, st => .next { st with S := setReg st.S dst (st.S.getD src []) [] }
+  | .copyName dst src, st =>
+    if st.nullS = some src then .stuck else .next { st with S := setReg st.S dst (st.S.getD src []) [] }
   | .copyObj dst src, st => .next { st with O := setReg st.O dst (st.O.getD src .null) .null }
   | .getattro dst src t, st =>
     match st.O.getD src .null, st.T.getD t .python with
@@ -357,7 +392,11 @@ def SetCtx.exec (c : SetCtx) : Stmt → SetSt → Outcome SetSt StepOut
     | _, _ => .stuck
   | .attrName dst t o s, st =>
     match st.O.getD o .null, st.T.getD t .python with
-    | .obj ob, .defer d => .next { st with S := setReg st.S dst (attrName d (c.p.obj ob).cls.pfx (st.S.getD s [])) [] }
+    | .obj ob, .defer d =>
+      if st.nullS = some s then .stuck else
+      match c.nameFn d (c.p.obj ob).cls.pfx (st.S.getD s []) with
+      | .ok r => .next { st with S := setReg st.S dst r [], nullS := none }
+      | .error e => .next { st with nullS := some dst, pending := some e }
     | _, _ => .stuck
   | .setattr fn a1 a2 o s, st =>
     match st.O.getD o .null with
@@ -379,7 +418,10 @@ def SetCtx.exec (c : SetCtx) : Stmt → SetSt → Outcome SetSt StepOut
     match st.result with
     | some r => if isOk r then .stuck else .next st   -- `result = -1` keeps the exception of the failed call
     | none => .stuck
-  | .retErr .pending, _ => .stuck                     -- in the model the delegate reference always reads
+  | .retErr .pending, st =>                           -- `return -1` with the callee's exception
+    match st.pending with
+    | some e => .ret (fail c.p e)
+    | none => .stuck
   | .retErr e, _ => .ret (fail c.p e.exc)
   | .retResult, st =>
     match st.result with
@@ -399,9 +441,9 @@ def loopFuel : Nat := 1000
 
 /-- `setattr_delegate(traito, traitd, obj, name, value)`: registers — objects `[obj, …]`, names
 `[name, …]`, traits `[traito, traitd]` (both the deferring trait at entry, `has_traits_setattro`). -/
-def execSet (f : CFun) (E : Env) (k : Nat) (p : Pool) (o : ObjId) (n : Name) (d : DelegInfo) (v : Option Val) :
-    StepOut :=
-  let c : SetCtx := ⟨E, k, p, d, v⟩
+def execSet (f : CFun) (E : Env) (k : Nat) (p : Pool) (o : ObjId) (n : Name) (d : DelegInfo) (v : Option Val)
+    (nameFn : NameFn := totalName) : StepOut :=
+  let c : SetCtx := ⟨E, k, p, d, v, nameFn⟩
   match f.loop with
   | none => fail p .other
   | some body =>
@@ -412,7 +454,145 @@ def execSet (f : CFun) (E : Env) (k : Nat) (p : Pool) (o : ObjId) (n : Name) (d 
       | .ret r => r
       | _ => fail p .other
     | .ret r => r
-    | .stuck => fail p .other
+    | _ => fail p .other
+
+
+/-! ### _has_traits_trait (`base_trait`: instance = -2) -/
+
+structure BaseSt where
+  O : List OVal
+  S : List Name
+  T : List (Option TraitDef)      -- `none` = NULL
+  i : Nat := 0
+  raised : Bool := false
+  nullS : Option Nat := none    -- the name register that holds NULL (using it is undefined behaviour)
+
+/-- Constants of one call `obj.base_trait(name)` = `_has_traits_trait(obj, (name, -2))`. -/
+structure BaseCtx where
+  p : Pool
+  instance_ : Int
+  nameFn : NameFn
+
+def BaseCtx.cond (c : BaseCtx) (st : BaseSt) : Cond → Option (Bool × BaseSt)
+  | .instanceGe k => some (decide (c.instance_ ≥ k), st)
+  | .traitNull t => some ((st.T.getD t none).isNone, st)
+  | .or a b =>
+    match c.cond st a with
+    | none => none
+    | some (true, st') => some (true, st')
+    | some (false, st') => c.cond st' b
+  | .noAttrNameFn t =>
+    match st.T.getD t none with
+    | some (.defer _) => some (false, st)
+    | some _ => some (true, st)
+    | none => none
+  | .dictNotNull owner =>
+    match st.O.getD owner .null with
+    | .obj _ => some (true, st)
+    | _ => none
+  | .objNull o => some ((match st.O.getD o .null with | .null => true | _ => false), st)
+  | .notHasTraits o =>
+    match st.O.getD o .null with
+    | .obj _ => some (false, st)
+    | .pyNone => some (true, st)
+    | .null => none
+  | .nameNull s => some (decide (st.nullS = some s), st)
+  | .traitLookupFails2 o s s2 dst =>
+    if st.nullS = some s ∨ st.nullS = some s2 then none else
+    match st.O.getD o .null with
+    | .obj x => some (false, { st with T := setReg st.T dst (some ((c.p.obj x).cls.trait (st.S.getD s []))) none })
+    | _ => none
+  | .notCTrait _ => some (false, st)
+  | .incrGe b => some (decide (st.i + 1 ≥ b), { st with i := st.i + 1 })
+  | _ => none
+
+def BaseCtx.exec (c : BaseCtx) : Stmt → BaseSt → Outcome BaseSt (Option TraitDef)
+  | .skip, st => .next st
+  | .seq a b, st =>
+    match c.exec a st with
+    | .next st' => c.exec b st'
+    | r => r
+  | .ite cd t e, st =>
+    match c.cond st cd with
+    | none => .stuck
+    | some (true, st') => c.exec t st'
+    | some (false, st') => c.exec e st'
+  | .copyName dst src, st =>
+    if st.nullS = some src then .stuck else .next { st with S := setReg st.S dst (st.S.getD src []) [] }
+  | .copyObj dst src, st => .next { st with O := setReg st.O dst (st.O.getD src .null) .null }
+  | .getTrait dst o s, st =>
+    match st.O.getD o .null with
+    | .obj x => .next { st with T := setReg st.T dst (some ((c.p.obj x).cls.trait (st.S.getD s []))) none }
+    | _ => .stuck
+  | .objSetNull o, st => .next { st with O := setReg st.O o .null .null }
+  | .dictGet dst owner t, st =>
+    match st.O.getD owner .null, st.T.getD t none with
+    | .obj o, some (.defer _) =>
+      .next { st with O := setReg st.O dst (match (c.p.obj o).deleg with | some x => .obj x | none => .null) .null }
+    | _, _ => .stuck
+  | .getattro dst src t, st =>
+    match st.O.getD src .null, st.T.getD t none with
+    | .obj o, some (.defer _) =>
+      .next { st with O := setReg st.O dst (match (c.p.obj o).deleg with | some x => .obj x | none => .pyNone) .null }
+    | _, _ => .stuck
+  | .attrName dst t o s, st =>
+    match st.O.getD o .null, st.T.getD t none with
+    | .obj ob, some (.defer d) =>
+      if st.nullS = some s then .stuck else
+      match c.nameFn d (c.p.obj ob).cls.pfx (st.S.getD s []) with
+      | .ok r => .next { st with S := setReg st.S dst r [], nullS := none }
+      | .error _ => .next { st with nullS := some dst, raised := true }
+    | _, _ => .stuck
+  | .raise _, st => .next { st with raised := true }
+  | .retTrait t, st => .ret (st.T.getD t none)
+  | .retErr .pending, st => if st.raised then .ret none else .stuck     -- `return NULL` needs an exception set
+  | .brk, st => .brk st
+  | _, _ => .stuck
+
+def BaseCtx.loop (c : BaseCtx) (body : Stmt) : Nat → BaseSt → Outcome BaseSt (Option TraitDef)
+  | 0, _ => .stuck
+  | f + 1, st =>
+    match c.exec body st with
+    | .next st' => c.loop body f st'
+    | r => r
+
+/-- `obj.base_trait(name)`: the trait the deferral chain of `(o, n)` ends in, `none` when the call raises.
+Registers — objects `[obj, delegate, temp_delegate]`, names `[name, daname, daname2]`, traits `[trait]`. -/
+def execBase (f : CFun) (p : Pool) (o : ObjId) (n : Name) (nameFn : NameFn := totalName) : Option TraitDef :=
+  let c : BaseCtx := ⟨p, -2, nameFn⟩
+  match f.loop with
+  | none => none
+  | some body =>
+    match c.exec f.pre { O := .obj o :: List.replicate (f.nO - 1) .null, S := n :: List.replicate (f.nS - 1) [], T := [none] } with
+    | .next st =>
+      match c.loop body loopFuel st with
+      | .ret r => r
+      | .brk st' =>
+        match c.exec f.post st' with
+        | .ret r => r
+        | _ => none
+      | _ => none
+    | .ret r => r
+    | _ => none
+
+/-- Does the run of `base_trait` end in a `return` (with a trait or with NULL and an exception set), i.e. is
+it free of undefined behaviour (`stuck`: NULL dereference, `return NULL` without an exception)? -/
+def execBaseDefined (f : CFun) (p : Pool) (o : ObjId) (n : Name) (nameFn : NameFn := totalName) : Bool :=
+  let c : BaseCtx := ⟨p, -2, nameFn⟩
+  match f.loop with
+  | none => false
+  | some body =>
+    match c.exec f.pre { O := .obj o :: List.replicate (f.nO - 1) .null, S := n :: List.replicate (f.nS - 1) [], T := [none] } with
+    | .next st =>
+      match c.loop body loopFuel st with
+      | .ret _ => true
+      | .brk st' =>
+        match c.exec f.post st' with
+        | .ret _ => true
+        | _ => false
+      | _ => false
+    | .ret _ => true
+    | _ => false
 
 /-! ## §3 String programs of the Python side -/
 
@@ -425,6 +605,9 @@ inductive PExpr where
   | concat (a b : PExpr)          -- a + b, '%s%s' % (a, b)
   | tmeta (key : List Char)       -- trait.<key>            (metadata of the deferring trait)
   | classAttr (key dflt : List Char)   -- getattr(self.__class__, key, dflt)
+  | delegateName (a b : PExpr)    -- self._trait_delegate_name(a, b)
+  | afterColon (e : PExpr)        -- e.split(':')[-1]
+  | dropVar (e : PExpr) (v : Nat) -- e[<int variable v>:]
   deriving DecidableEq, Repr
 
 inductive PCond where
@@ -442,6 +625,7 @@ inductive PStmt where
   | assignInt (v : Nat) (k : Nat)
   | setMeta (key : List Char) (v : Nat)      -- metadata[key] = <var v>
   | setSelf (key : List Char) (v : Nat)      -- self.<key> = <var v>
+  | assignLen (v : Nat) (e : PExpr)          -- <var v> = len(e)
   | ret (e : PExpr)
   deriving DecidableEq, Repr
 
@@ -456,6 +640,13 @@ def PVal.toStr : PVal → Name
   | .str s => s
   | _ => []
 
+def PVal.toNat : PVal → Nat
+  | .int k => k
+  | _ => 0
+
+/-- `s.split(':')[-1]`. -/
+def afterLastColon (s : Name) : Name := (s.reverse.takeWhile (· ≠ ':')).reverse
+
 structure PSt where
   vars : List PVal
   metaOut : List (List Char × PVal) := []
@@ -465,6 +656,7 @@ structure PSt where
 structure PCtx where
   tmeta : List Char → Name                -- metadata of `trait`
   classAttr : List Char → Option Name     -- attributes of `self.__class__`
+  tdn : Name → Name → Name := fun _ p => p   -- `self._trait_delegate_name`
 
 def PCtx.eval (c : PCtx) (st : PSt) : PExpr → Name
   | .var v => (st.vars.getD v .undef).toStr
@@ -475,6 +667,9 @@ def PCtx.eval (c : PCtx) (st : PSt) : PExpr → Name
   | .concat a b => c.eval st a ++ c.eval st b
   | .tmeta k => c.tmeta k
   | .classAttr k dflt => (c.classAttr k).getD dflt
+  | .delegateName a b => c.tdn (c.eval st a) (c.eval st b)
+  | .afterColon e => afterLastColon (c.eval st e)
+  | .dropVar e v => (c.eval st e).drop (st.vars.getD v .undef).toNat
 
 def PCtx.test (c : PCtx) (st : PSt) : PCond → Bool
   | .eq a b => c.eval st a == c.eval st b
@@ -494,6 +689,7 @@ def PCtx.exec (c : PCtx) : PStmt → PSt → PSt
   | .assignInt v k, st => { st with vars := setReg st.vars v (.int k) .undef }
   | .setMeta key v, st => { st with metaOut := (key, st.vars.getD v .undef) :: st.metaOut }
   | .setSelf key v, st => { st with selfOut := (key, st.vars.getD v .undef) :: st.selfOut }
+  | .assignLen v e, st => { st with vars := setReg st.vars v (.int (c.eval st e).length) .undef }
   | .ret e, st => { st with ret := some (c.eval st e) }
 
 def lookupP (l : List (List Char × PVal)) (k : List Char) : PVal := (l.lookup k).getD .undef
@@ -501,7 +697,7 @@ def lookupP (l : List (List Char × PVal)) (k : List Char) : PVal := (l.lookup k
 /-- `Delegate.__init__(self, delegate, prefix, modify, listenable)`: variables `[delegate, prefix, modify,
 listenable, prefix_type]` (numbered by the translator: parameters after `self`, then locals). -/
 def initDelegateSrc (prog : PStmt) (dname pfx : Name) (modify : Bool) : Option DelegInfo :=
-  let st := (PCtx.mk (fun _ => []) (fun _ => none)).exec prog
+  let st := ({ tmeta := fun _ => [], classAttr := fun _ => none } : PCtx).exec prog
     { vars := [.str dname, .str pfx, .bool modify, .bool true] }
   match lookupP st.metaOut ['_', 'p', 'r', 'e', 'f', 'i', 'x'], lookupP st.selfOut ['p', 'r', 'e', 'f', 'i', 'x'],
         lookupP st.selfOut ['p', 'r', 'e', 'f', 'i', 'x', '_', 't', 'y', 'p', 'e'], lookupP st.selfOut ['m', 'o', 'd', 'i', 'f', 'y'] with
@@ -515,11 +711,39 @@ def traitMeta (dname raw : Name) (k : List Char) : Name :=
 
 /-- `get_delegate_pattern(name, trait)`: variables `[name, trait, prefix]` (`trait` is only used through `tmeta`). -/
 def delegatePatternSrc (prog : PStmt) (dname raw n : Name) : Option Name :=
-  ((PCtx.mk (traitMeta dname raw) (fun _ => none)).exec prog { vars := [.str n, .undef] }).ret
+  (({ tmeta := traitMeta dname raw, classAttr := fun _ => none } : PCtx).exec prog { vars := [.str n, .undef] }).ret
 
 /-- `HasTraits._trait_delegate_name(self, name, pattern)`: variables `[name, pattern]`. -/
 def traitDelegateNameSrc (prog : PStmt) (clsPfx : Option Name) (n pat : Name) : Option Name :=
-  ((PCtx.mk (fun _ => []) (clsAttr clsPfx)).exec prog { vars := [.str n, .str pat] }).ret
+  (({ tmeta := fun _ => [], classAttr := clsAttr clsPfx } : PCtx).exec prog { vars := [.str n, .str pat] }).ret
+
+/-- `HasTraits._init_trait_delegate_listener(self, name, kind, pattern)`: the statements in front of the
+closure (variables `[name, kind, pattern, …locals]`), the name the closure `notify(self, object,
+notify_name, old, new)` passes to `self.trait_property_changed` (variable `notifyVar` = `notify_name`), the
+pattern `self.on_trait_change(notify, <pattern>, target=self)` registers it under, and the key of
+`self.__dict__.setdefault(ListenerTraits, {})[<key>] = notify`. -/
+structure InitListener where
+  body : PStmt
+  notifyVar : Nat
+  notifyName : PExpr
+  registerPattern : PExpr
+  storeKey : PExpr
+  deriving Repr
+
+structure InitListenerOut where
+  registered : Name            -- the `on_trait_change` name of the listener
+  key : Name                   -- its key in the listener table
+  reported : Name → Name       -- changed attribute of the delegate ↦ attribute reported on `self`
+
+/-- Run `_init_trait_delegate_listener(name, 0, pat)` on an object of a class with `__prefix__` `clsPfx`;
+`tdn` is the interpretation of `_trait_delegate_name`. -/
+def initListenerSrc (prog : InitListener) (tdn : Name → Name → Name) (clsPfx : Option Name) (n pat : Name) :
+    InitListenerOut :=
+  let c : PCtx := { tmeta := fun _ => [], classAttr := clsAttr clsPfx, tdn := tdn }
+  let st := c.exec prog.body { vars := [.str n, .int 0, .str pat] }
+  { registered := c.eval st prog.registerPattern,
+    key := c.eval st prog.storeKey,
+    reported := fun nn => c.eval { st with vars := setReg st.vars prog.notifyVar (.str nn) .undef } prog.notifyName }
 
 /-! ## §4 The listener table -/
 
